@@ -334,6 +334,11 @@ func NewCommitVoteSetFromBytes(bs []byte) module.CommitVoteSet {
 	if err != nil {
 		return nil
 	}
+	// a list that cannot be encoded again (e.g. a signature without
+	// recovery id) is not a valid vote list; Bytes() would panic on it.
+	if vl.bytes, err = vlCodec.MarshalToBytes(vl); err != nil {
+		return nil
+	}
 	return vl
 }
 
